@@ -315,9 +315,9 @@ func factEqString(m VPred, s string, eq bool) EdgePred {
 			return false
 		}
 		var side ssa.Value
-		if k, ok := constString(bo.Y); ok && k == s {
+		if k, ok := constString(envValue(bo.Y)); ok && k == s {
 			side = bo.X
-		} else if k, ok := constString(bo.X); ok && k == s {
+		} else if k, ok := constString(envValue(bo.X)); ok && k == s {
 			side = bo.Y
 		} else {
 			return false
@@ -330,6 +330,74 @@ func factEqString(m VPred, s string, eq bool) EdgePred {
 	}
 }
 
+// envValue replaces a parameter of a looked-through helper by the argument bound to it in the current calling context
+// (so that `x == wanted` inside containsX(list, "https") is matched as `x == "https"`).
+func envValue(v ssa.Value) ssa.Value {
+	for i := 0; i < 4; i++ {
+		prm, ok := v.(*ssa.Parameter)
+		if !ok {
+			return v
+		}
+		if b, bound := paramEnv[prm]; bound {
+			v = b
+			continue
+		}
+		if b, bound := stripEnv[prm]; bound {
+			v = b
+			continue
+		}
+		if k := uniformConstArg(prm); k != nil {
+			return k
+		}
+		return v
+	}
+	return v
+}
+
+// uniformConstArg: prm is a parameter of an unexported library function all of whose call sites (it has some, all in
+// the library) pass one and the same constant for it — `selectScheme(list, schemeHTTPS)` everywhere: inside the
+// function the parameter IS that constant.
+func uniformConstArg(prm *ssa.Parameter) *ssa.Const {
+	f := prm.Parent()
+	if f == nil || curProg == nil || curProg.ti == nil || f.Object() == nil || f.Object().Exported() {
+		return nil
+	}
+	pos := -1
+	for i, pp := range f.Params {
+		if pp == prm {
+			pos = i
+		}
+	}
+	sites := curProg.ti.callers[f]
+	if pos < 0 || len(sites) == 0 {
+		return nil
+	}
+	var k *ssa.Const
+	for _, cs := range sites {
+		a := cs.Common().Args
+		if pos >= len(a) {
+			return nil
+		}
+		c, ok := a[pos].(*ssa.Const)
+		if !ok || c.Value == nil {
+			return nil
+		}
+		if k != nil && !constant.Compare(k.Value, token.EQL, c.Value) {
+			return nil
+		}
+		k = c
+	}
+	// the function value must not escape (be called through a variable with other arguments)
+	if refs := f.Referrers(); refs != nil {
+		for _, r := range *refs {
+			if ci, isCall := r.(ssa.CallInstruction); !isCall || ci.Common().Value != ssa.Value(f) {
+				return nil
+			}
+		}
+	}
+	return k
+}
+
 // factEqInt: edge establishes v == k (eq) / v != k.
 func factEqInt(m VPred, k int64, eq bool) EdgePred {
 	return func(cond ssa.Value, branch bool) bool {
@@ -339,9 +407,9 @@ func factEqInt(m VPred, k int64, eq bool) EdgePred {
 			return false
 		}
 		var side ssa.Value
-		if x, ok := constInt(bo.Y); ok && x == k {
+		if x, ok := constInt(envValue(bo.Y)); ok && x == k {
 			side = bo.X
-		} else if x, ok := constInt(bo.X); ok && x == k {
+		} else if x, ok := constInt(envValue(bo.X)); ok && x == k {
 			side = bo.Y
 		} else {
 			return false
@@ -750,7 +818,7 @@ func (c *provCtx) walk(v ssa.Value, idx int) {
 		if x.Op == token.MUL {
 			switch a := x.X.(type) {
 			case *ssa.Alloc:
-				sts := storesToCell(a)
+				sts := reachingStores(storesToCell(a), x)
 				if len(sts) == 0 {
 					c.emit(v, idx) // zero value of the variable
 				}
@@ -773,7 +841,15 @@ func (c *provCtx) walk(v ssa.Value, idx int) {
 			case *ssa.FieldAddr:
 				// field of a struct type unknown to the baseline (it replaced the captured variables of a function
 				// literal): whatever was stored into that field anywhere
-				if n, st := structOf(a.X.Type()); n != nil && st != nil && isNewType(n) && c.depthNT < 3 {
+				regrouped := false
+				if inner, isIn := a.X.(*ssa.FieldAddr); isIn {
+					if nOut, _ := structOf(inner.X.Type()); nOut != nil {
+						if _, st0 := structOf(a.X.Type()); st0 != nil && a.Field < st0.NumFields() {
+							_, regrouped = regroupedField(a, typeFullName(nOut), st0.Field(a.Field).Name())
+						}
+					}
+				}
+				if n, st := structOf(a.X.Type()); !regrouped && n != nil && st != nil && isNewType(n) && c.depthNT < 3 {
 					vals := curProg.newTypeFieldStores(typeFullName(n), st.Field(a.Field).Name())
 					if len(vals) > 0 {
 						c.depthNT++
@@ -891,6 +967,9 @@ func (c *provCtx) walk(v ssa.Value, idx int) {
 			for _, r := range rets {
 				if isRecoverReturn(r) {
 					continue
+				}
+				if siblingExcludes(x, ri, r) {
+					continue // (value, ok) helper: this return answers ok == false, and the value is only used behind ok == true
 				}
 				if rv := resOf(r, ri); rv != nil {
 					// results are fresh values of another function: do not let the seen-set of this walk hide them
@@ -1224,6 +1303,9 @@ func paramOf(fn *ssa.Function, i int) *ssa.Parameter {
 	off := 0
 	if fn.Signature.Recv() != nil {
 		off = 1
+		if curProg != nil && curProg.ti != nil && curProg.ti.recvIsParam[fn] {
+			off = 0
+		}
 	}
 	if i+off >= len(fn.Params) {
 		fatalf("function %s has no parameter #%d", fn, i)
@@ -1264,6 +1346,9 @@ func fieldLoad(v ssa.Value, typeName, field string) (ssa.Value, bool) {
 		if fieldIs(fa.X.Type(), fa.Field, typeName, field) {
 			return fa.X, true
 		}
+		if outer, ok := regroupedField(fa, typeName, field); ok {
+			return outer, true
+		}
 	case *ssa.Field:
 		if fieldIs(x.X.Type(), x.Field, typeName, field) {
 			return x.X, true
@@ -1294,7 +1379,7 @@ func typeFullName(n *types.Named) string {
 	if n.Obj().Pkg() == nil {
 		return n.Obj().Name()
 	}
-	return short(n.Obj().Pkg().Path()) + "." + n.Obj().Name()
+	return short(n.Obj().Pkg().Path() + "." + n.Obj().Name())
 }
 
 // fieldIs reports whether field #idx of the struct behind t is typeName.field.
@@ -1316,7 +1401,42 @@ func fieldAddrOf(v ssa.Value, typeName, field string) (*ssa.FieldAddr, bool) {
 	if !ok {
 		return nil, false
 	}
-	return fa, fieldIs(fa.X.Type(), fa.Field, typeName, field)
+	if fieldIs(fa.X.Type(), fa.Field, typeName, field) {
+		return fa, true
+	}
+	_, ok = regroupedField(fa, typeName, field)
+	return fa, ok
+}
+
+// regroupedField: the baseline field typeName.field now lives in a struct type unknown to the baseline that typeName
+// embeds (fields regrouped into an embedded struct, reached through promotion): fa is &(&x.<embedded>).field. It
+// returns x.
+func regroupedField(fa *ssa.FieldAddr, typeName, field string) (ssa.Value, bool) {
+	if typeName == "" || len(fieldInventory) == 0 {
+		return nil, false
+	}
+	if _, was := fieldInventory[typeName+"."+field]; !was {
+		return nil, false
+	}
+	inner, ok := fa.X.(*ssa.FieldAddr)
+	if !ok {
+		return nil, false
+	}
+	nIn, stIn := structOf(fa.X.Type())
+	if nIn == nil || stIn == nil || !isNewType(nIn) || fa.Field >= stIn.NumFields() || stIn.Field(fa.Field).Name() != field {
+		return nil, false
+	}
+	nOut, stOut := structOf(inner.X.Type())
+	if nOut == nil || stOut == nil || typeFullName(nOut) != typeName || inner.Field >= stOut.NumFields() || !stOut.Field(inner.Field).Embedded() {
+		return nil, false
+	}
+	// the field must be gone from the outer struct itself
+	for i := 0; i < stOut.NumFields(); i++ {
+		if stOut.Field(i).Name() == field {
+			return nil, false
+		}
+	}
+	return inner.X, true
 }
 
 // vOrigins lifts origin predicates to a value predicate: all origins of the value satisfy one of preds.
@@ -1500,4 +1620,165 @@ func (p *Prog) newTypeMethods() []*ssa.Function {
 		}
 	}
 	return out
+}
+
+// siblingExcludes: call is a call of a looked-through helper returning several results, ret one of the helper's
+// returns. It reports whether the value ret yields for result idx can never reach a use: ret answers a constant
+// boolean b for a sibling result, while every use of the call's result idx in the caller lies behind a test of that
+// sibling result being !b (the `v, ok := helper(); if ok { use(v) }` idiom).
+func siblingExcludes(call *ssa.Call, idx int, ret *ssa.Return) bool {
+	if len(ret.Results) < 2 || call.Referrers() == nil {
+		return false
+	}
+	var val ssa.Value
+	sib := map[int]ssa.Value{}
+	for _, ref := range *call.Referrers() {
+		if ex, ok := ref.(*ssa.Extract); ok {
+			if ex.Index == idx {
+				val = ex
+			} else {
+				sib[ex.Index] = ex
+			}
+		}
+	}
+	if val == nil || val.Referrers() == nil {
+		return false
+	}
+	for j, res := range ret.Results {
+		if j == idx {
+			continue
+		}
+		b, isB := constBool(res)
+		sv := sib[j]
+		if sv == nil {
+			continue
+		}
+		var want EdgePred // what every use of the value must lie behind for this return to be excluded
+		switch {
+		case isB:
+			want = factBool(vIs(sv), !b)
+		case typeStr(res.Type()) == "error" && !isNilConst(res) && (definitelyNonNilError(res) || guardedOn(ret, res, factNil(vIs(res), false))):
+			// `return zero, err` on the failure path, the value used only behind `err == nil`
+			want = factNil(vIs(sv), true)
+		default:
+			continue
+		}
+		all, n := true, 0
+		for _, ref := range *val.Referrers() {
+			if _, isDbg := ref.(*ssa.DebugRef); isDbg {
+				continue
+			}
+			n++
+			if phi, isPhi := ref.(*ssa.Phi); isPhi {
+				for i, e := range phi.Edges {
+					if e == val && !edgeGuarded(phi.Block().Preds[i], phi.Block(), call, want) {
+						all = false
+					}
+				}
+				continue
+			}
+			if !guardedBy(ref, call, want) {
+				all = false
+			}
+		}
+		if all && n > 0 {
+			return true
+		}
+	}
+	return false
+}
+
+// reachingStores keeps, of the stores to a local cell, those that can be the last one executed before the load: a
+// store of the load's own function is dropped when every path from it to the load passes another store of that
+// function to the cell (`req = build(); ...; req = req.WithContext(ctx); use(req)`: only the second reaches the use).
+// Stores made elsewhere (in function literals sharing the variable) are always kept.
+func reachingStores(sts []*ssa.Store, load *ssa.UnOp) []*ssa.Store {
+	if len(sts) < 2 || load.Block() == nil {
+		return sts
+	}
+	f := load.Parent()
+	var local []ssa.Instruction
+	for _, s := range sts {
+		if s.Parent() == f {
+			local = append(local, s)
+		}
+	}
+	if len(local) < 2 {
+		return sts
+	}
+	key := reachKey{load, len(sts)}
+	if r, ok := reachCache[key]; ok {
+		return r
+	}
+	var out []*ssa.Store
+	for _, s := range sts {
+		if s.Parent() != f {
+			out = append(out, s)
+			continue
+		}
+		var others []ssa.Instruction
+		for _, o := range local {
+			if o != ssa.Instruction(s) {
+				others = append(others, o)
+			}
+		}
+		if plainPathExists(f, s, load, others) {
+			out = append(out, s)
+		}
+	}
+	if len(out) == 0 {
+		out = sts
+	}
+	reachCache[key] = out
+	return out
+}
+
+type reachKey struct {
+	load *ssa.UnOp
+	n    int
+}
+
+var reachCache = map[reachKey][]*ssa.Store{}
+
+// plainPathExists: a CFG path inside f from just after `from` to `to` that executes none of the stop instructions.
+func plainPathExists(f *ssa.Function, from, to ssa.Instruction, stop []ssa.Instruction) bool {
+	isStop := map[ssa.Instruction]bool{}
+	for _, s := range stop {
+		isStop[s] = true
+	}
+	scan := func(b *ssa.BasicBlock, start int) (found, stopped bool) {
+		for i := start; i < len(b.Instrs); i++ {
+			if b.Instrs[i] == to {
+				return true, false
+			}
+			if isStop[b.Instrs[i]] {
+				return false, true
+			}
+		}
+		return false, false
+	}
+	if found, stopped := scan(from.Block(), instrIndex(from)+1); found {
+		return true
+	} else if stopped {
+		return false
+	}
+	seen := map[*ssa.BasicBlock]bool{}
+	work := append([]*ssa.BasicBlock{}, from.Block().Succs...)
+	for len(work) > 0 {
+		b := work[len(work)-1]
+		work = work[:len(work)-1]
+		if seen[b] {
+			continue
+		}
+		seen[b] = true
+		found, stopped := scan(b, 0)
+		if found {
+			return true
+		}
+		if stopped {
+			continue
+		}
+		work = append(work, b.Succs...)
+	}
+	return false
 }
